@@ -58,7 +58,7 @@ pub struct Chitchat {
     cluster_state: ClusterState,
     failure_detector: FailureDetector,
     /// Notifies listeners when a change has occurred in the set of live nodes.
-    previous_live_nodes: HashMap<ChitchatId, Version>,
+    previous_live_nodes: HashMap<ChitchatId, (Version, bool)>,
     live_nodes_watcher_tx: watch::Sender<BTreeMap<ChitchatId, NodeState>>,
     live_nodes_watcher_rx: watch::Receiver<BTreeMap<ChitchatId, NodeState>>,
 }
@@ -218,7 +218,18 @@ impl Chitchat {
             .live_nodes()
             .flat_map(|chitchat_id| {
                 if let Some(node_state) = self.node_state(chitchat_id) {
-                    return Some((chitchat_id.clone(), node_state.max_version()));
+                    // The extra predicate can flip without any change of the max version
+                    // (e.g. when a key with a TTL is garbage collected).
+                    let satisfies_extra_predicate = self
+                        .config
+                        .extra_liveness_predicate
+                        .as_ref()
+                        .map(|liveness_extra_predicate| liveness_extra_predicate(node_state))
+                        .unwrap_or(true);
+                    return Some((
+                        chitchat_id.clone(),
+                        (node_state.max_version(), satisfies_extra_predicate),
+                    ));
                 }
                 warn!("node state for {chitchat_id:?} is absent");
                 None
@@ -227,16 +238,11 @@ impl Chitchat {
 
         if self.previous_live_nodes != current_live_nodes {
             let live_nodes = current_live_nodes
-                .keys()
-                .cloned()
-                .flat_map(|chitchat_id| {
-                    let node_state = self.node_state(&chitchat_id)?;
-                    if let Some(liveness_extra_predicate) = &self.config.extra_liveness_predicate {
-                        if !liveness_extra_predicate(node_state) {
-                            return None;
-                        }
-                    }
-                    Some((chitchat_id, node_state.clone()))
+                .iter()
+                .filter(|(_, (_, satisfies_extra_predicate))| *satisfies_extra_predicate)
+                .flat_map(|(chitchat_id, _)| {
+                    let node_state = self.node_state(chitchat_id)?;
+                    Some((chitchat_id.clone(), node_state.clone()))
                 })
                 .collect::<BTreeMap<_, _>>();
             self.previous_live_nodes = current_live_nodes;
